@@ -113,6 +113,45 @@ pub fn place_hash(key: &[u8]) -> u64 {
     h
 }
 
+fn xs_inv(mut y: u64) -> u64 {
+    // undo x ^= x >> 27
+    y ^= y >> 27;
+    y ^= y >> 54;
+    // undo x ^= x << 25
+    y ^= y << 25;
+    y ^= y << 50;
+    // undo x ^= x >> 12
+    let mut x = y;
+    let mut s = 12;
+    while s < 64 {
+        x ^= y >> s;
+        s += 12;
+    }
+    // the loop above xors y>>12, y>>24, ...: that is the closed form of the inverse of x ^= x >> 12
+    x
+}
+
+/// `n` distinct 16-byte keys whose placement hash (all 64 bits) is the same
+pub fn colliding_keys(rng: &mut crate::util::Rng, n: usize) -> Vec<Vec<u8>> {
+    let target = rng.next();
+    let len_word = u64::from_be_bytes(16u64.to_le_bytes());
+    let h0 = xs(len_word);
+    let mut out: Vec<Vec<u8>> = Vec::new();
+    let mut tries = 0;
+    while out.len() < n && tries < 64 {
+        tries += 1;
+        let a1 = rng.next();
+        let h1 = xs(h0.wrapping_add(a1));
+        let a2 = xs_inv(target).wrapping_sub(h1);
+        let mut k = a1.to_be_bytes().to_vec();
+        k.extend_from_slice(&a2.to_be_bytes());
+        if place_hash(&k) == target && !out.contains(&k) {
+            out.push(k);
+        }
+    }
+    out
+}
+
 pub fn bucket_of(key: &[u8], n: u64) -> u64 {
     place_hash(key) % n
 }
